@@ -15,7 +15,7 @@ TYPES = ["debug", "info", "warning", "critical", "fatal"]
 # BMP, U+200B (the code's former in-band marker), a surrogate pair, line separators
 POOL = [ord(c) for c in "abcXYZ019 %{}:?,!<>^*#.-_/\\[]()\"'\t"] + [0xE9, 0x416, 0x4E2D, 0x200B, 0x200B, 0x2028, 0xFEFF, 0x301]
 ASTRAL = [[0xD83D, 0xDE42], [0xD835, 0xDC00]]
-FILLS = [" ", "*", "0", "-", ".", "#", "x", "_", "é", "=", "~"]
+FILLS = [" ", "*", "0", "-", ".", "#", "x", "_", "é", "=", "~", "<", ">", "^", "!", "9"]
 ATTR_NAMES = ["user", "seq_number", "appname", "k1", "a.b", "x_y", "Имя", "名前", "n-1"]
 TIME_FMTS = ["", "yyyy-MM-dd hh:mm:ss", "hh:mm:ss.zzz", "dd.MM.yyyy", "yyyy-MM-ddThh:mm:ss.zzz", "HH:mm"]
 
